@@ -47,6 +47,7 @@ GEvidence == \E v \in Vals, n \in 1..(lastBatch + 1), x \in EstVersions :
 GNext ==
   CASE Family = "funds"  -> GSend \/ GCancel \/ GSetTax \/ GClaimExec \/ GClaimDep \/ GEndBlock \/ GAdvance
     [] Family = "limits" -> GSend \/ GSetTax \/ GSetLimit \/ GAdvance \/ GCancel
+    [] Family = "limbatch" -> GSend \/ GSetLimit \/ GAdvance \/ GEndBlock \/ GCancel   \* limit usage across the batch life cycle (build, timeout, cancel)
     [] Family = "sigs"   -> GSend \/ GEstimate \/ GConfirm \/ GEvidence \/ GClaimExec \/ GEndBlock \/ GAdvance
     [] OTHER             -> GSend \/ GCancel \/ GSetTax \/ GSetLimit \/ GClaimExec \/ GClaimDep \/ GEndBlock \/ GAdvance
                             \/ GEstimate \/ GConfirm \/ GEvidence
@@ -62,7 +63,7 @@ GConstr == /\ Len(hist) <= MaxOps /\ lastTx <= MaxTx /\ lastBatch <= MaxBatch /\
 \* cover mode: TLC evaluates invariants on every generated successor (before the fingerprint check),
 \* but evaluates the next-state relation once per distinct (dequeued) state: emit from there.
 EmitCond == /\ Len(hist) >= 3 /\ (res \in {"eb", "fail"} \/ Family # "funds")
-            /\ (Family = "limits" => hist[Len(hist)].act = "Send")      \* limits are decided when a transfer is sent
+            /\ (Family \in {"limits", "limbatch"} => hist[Len(hist)].act = "Send")      \* limits are decided when a transfer is sent
 GNextC == (IF EmitCond THEN PrintT(<<"HIST", ToJson(hist)>>) ELSE TRUE) /\ GNext
 Emit == Len(hist) = EmitAt => PrintT(<<"HIST", ToJson(hist)>>)
 =============================================================================
